@@ -143,6 +143,7 @@ type MITM struct {
 	applied bool
 	raw     [2][][]byte // copies of the forwarded originals (only when KeepRaw)
 	KeepRaw bool
+	in, out [2][]byte // what the sender wrote / what was delivered to the receiver, per direction (first 1 MiB)
 	wg      sync.WaitGroup
 }
 
@@ -164,6 +165,18 @@ func (m *MITM) Frames(dir int) []Frame {
 	m.mu.Lock()
 	defer m.mu.Unlock()
 	return append([]Frame(nil), m.frames[dir]...)
+}
+
+// Unaltered reports whether the first n bytes delivered in direction dir are exactly the first n bytes
+// the sender wrote (an edit whose replacement bytes happen to equal the original ones, e.g. a truncation
+// refilled by the first byte of the next frame, changes nothing for the receiver).
+func (m *MITM) Unaltered(dir int, n int64) bool {
+	m.mu.Lock()
+	defer m.mu.Unlock()
+	if int64(len(m.in[dir])) < n || int64(len(m.out[dir])) < n {
+		return false
+	}
+	return string(m.in[dir][:n]) == string(m.out[dir][:n])
 }
 
 func (m *MITM) Raw(dir int) [][]byte { m.mu.Lock(); defer m.mu.Unlock(); return m.raw[dir] }
@@ -228,6 +241,11 @@ func (m *MITM) relay(dir int) {
 		}
 		m.mu.Unlock()
 		off += int64(len(f))
+		m.mu.Lock()
+		if len(m.in[dir]) < 1<<20 {
+			m.in[dir] = append(m.in[dir], f...)
+		}
+		m.mu.Unlock()
 		out := [][]byte{f}
 		if e := m.edit; e != nil && e.Dir == dir && e.Msg == j {
 			applied := true
@@ -275,6 +293,9 @@ func (m *MITM) relay(dir int) {
 				}
 				m.mu.Lock()
 				m.frames[dir] = append(m.frames[dir], Frame{Start: off, Len: len(g), Type: g[0]})
+				if len(m.in[dir]) < 1<<20 {
+					m.in[dir] = append(m.in[dir], g...)
+				}
 				m.mu.Unlock()
 				off += int64(len(g))
 				j++
@@ -297,6 +318,11 @@ func (m *MITM) relay(dir int) {
 			}
 		}
 		for _, o := range out {
+			m.mu.Lock()
+			if len(m.out[dir]) < 1<<20 {
+				m.out[dir] = append(m.out[dir], o...)
+			}
+			m.mu.Unlock()
 			if _, err := dst.Write(o); err != nil {
 				return
 			}
